@@ -47,6 +47,11 @@ class Al:
         return self.i < o.i
 
 
+class Obj_:
+    def __init__(self, **kw):
+        self.__dict__.update(kw)
+
+
 class FakeBam:
     def __init__(self, als, length):
         self.als = als
@@ -62,6 +67,18 @@ class FakeBam:
 
     def get_reference_length(self, chr_id):
         return self.length
+
+    def get_index_statistics(self):
+        # pysam: one IndexStats(contig, mapped, unmapped, total) per reference sequence, from the BAM index
+        n_un = sum(1 for a in self.als if a.is_unmapped)
+        return [Obj_(contig="chr1", mapped=len(self.als) - n_un, unmapped=n_un, total=len(self.als))]
+
+    def count(self, *a, **k):
+        return len(self.als)
+
+    @property
+    def mapped(self):
+        return sum(1 for a in self.als if not a.is_unmapped)
 
     def reset(self):
         pass
@@ -79,11 +96,16 @@ class Scaled:
         return False
 
 
-def run_collector(als, high_memory):
-    bam = FakeBam(als, UNIVERSE + 8)
+def run_collector(als, high_memory, owners=None, n_files=1):
+    """owners: file index per alignment (alignments of one experiment split over several BAM files)"""
+    if owners is None:
+        bams = [FakeBam(als, UNIVERSE + 8)]
+    else:
+        bams = [FakeBam([a for a, o in zip(als, owners) if o == f], UNIVERSE + 8) for f in range(n_files)]
+    bam = bams[0]
     col = ap.AlignmentCollector.__new__(ap.AlignmentCollector)
     col.chr_id = "chr1"
-    col.bam_pairs = [(bam, "a.bam")]
+    col.bam_pairs = [(b, "f%d.bam" % i) for i, b in enumerate(bams)]
     col.params = type("P", (), {"high_memory": high_memory})()
     col.bam_merger = ap.BAMOnlineMerger(col.bam_pairs, "chr1", 0, bam.length, multiple_iterators=not high_memory)
     col.alignment_stat_counter = ap.EnumStats()
@@ -94,7 +116,7 @@ def run_collector(als, high_memory):
     return col, delivered
 
 
-def h_split(n, max_len, universe=UNIVERSE, with_unmapped=False):
+def h_split(n, max_len, universe=UNIVERSE, with_unmapped=False, n_files=1):
     def fn(g):
         als = []
         prev = None
@@ -111,10 +133,11 @@ def h_split(n, max_len, universe=UNIVERSE, with_unmapped=False):
             k_ = g.choice("unmapped_record_after", n + 1)
             pos_ = als[k_ - 1].reference_start if k_ else 0
             als = als[:k_] + [Al(n, pos_, None, False, False, True)] + als[k_:]
+        owners = [g.choice("file_of_alignment%d" % i, n_files) for i in range(len(als))] if n_files > 1 else None
         with Scaled():
             res = {}
             for hm in (False, True):
-                col, delivered = call(g, run_collector, als, hm)
+                col, delivered = call(g, run_collector, als, hm, owners, n_files)
                 res[hm] = delivered
                 for a in mapped:
                     got = any(any(x is a for x in lst) for _, lst in delivered)
